@@ -125,7 +125,7 @@ def _seq_of(ex, st, v):
     raise Unsupported(f"expected a sequence, got {v}")
 
 
-def named_array(ex, st, seq: VSeq):
+def named_array(ex, st, seq: VSeq, in_binders=False):
     """a sequence whose array term is a lambda/store expression gets a named copy (so that it can occur
     in quantifier triggers); equal pointwise on the index range"""
     a = seq.comps[0]
@@ -134,9 +134,20 @@ def named_array(ex, st, seq: VSeq):
     # the same (simplified) array expression gets the same name: two mins over it are the same term
     cache = ex.__dict__.setdefault("_named_arrays", {})
     key = (z3.simplify(a).sexpr(), z3.simplify(seq.ln).sexpr())
+    inside = bool(ex.binder_marks)
+    if inside and not in_binders:
+        inside = False          # (historic behaviour of every other caller: the definition goes to the current context)
+    if inside:
+        # inside a binder only terms WITHOUT bound variables can be named; the definition is a fact of the enclosing
+        # context and is added when the outermost binder is left
+        bound = {str(v) for vs, _ in ex.binder_marks for v in vs}
+        if any(b_ in key[0] or b_ in key[1] for b_ in bound):
+            return seq
     if key in cache:
         nm, fact = cache[key]
-        if not any(z3.eq(fact, p) for p in st.pc):
+        if inside:
+            ex.__dict__.setdefault("pending_named", []).append(fact)
+        elif not any(z3.eq(fact, p) for p in st.pc):
             st.pc.append(fact)
         return VSeq([nm], seq.ln, seq.et, seq.kind)
     nm = z3.Const(fresh_name("arr"), A)
@@ -147,7 +158,10 @@ def named_array(ex, st, seq: VSeq):
     # ground terms whatever argument order that normalisation chose; hand-written arithmetic triggers do not)
     fact = z3.And(z3.ForAll([j], z3.Implies(z3.And(0 <= j, j < seq.ln), nm[j] == body), patterns=[nm[j]]),
                   z3.ForAll([j], z3.Implies(z3.And(0 <= j, j < seq.ln), body == nm[j])))
-    st.pc.append(fact)
+    if inside:
+        ex.__dict__.setdefault("pending_named", []).append(fact)
+    else:
+        st.pc.append(fact)
     cache[key] = (nm, fact)
     return VSeq([nm], seq.ln, seq.et, seq.kind)
 
@@ -510,7 +524,7 @@ def call_builtin(ex, st, name, args, kwargs, node):
         a = args[0].comps[0]
         c = z3.Int("fb%c")             # (the very term array('I', bytes) builds: equal arrays are equal terms)
         cells = VSeq([z3.Lambda([c], streams_le_uint(a, 4 * c, 4))], args[0].ln / 4, TInt(0, 2 ** 32 - 1), "list")
-        return named_array(ex, st, cells) if not ex.binder_marks else cells
+        return named_array(ex, st, cells, in_binders=True)
     if name == "nzlead":
         from . import tables
         return VInt(tables.nzlead(args[0].comps[0], as_int(args[1])))
